@@ -17,9 +17,11 @@ Definition refs_ok (M : switch_model) : bool := forallb ref_allowed (sm_refs M).
 Definition n_guards (M : switch_model) : nat := List.length (filter is_guard_ref (sm_refs M)).
 
 Definition good (M : switch_model) : bool :=
-  forallb (fun e => outcome_is (is_enabled M e) (spec_enabled e)) dom_envs
+  String.eqb (sm_var M) "ENABLE_PEDANTIC"
+  && forallb (fun e => outcome_is (is_enabled M e) (spec_enabled e)) dom_envs
   && assigns (sm_enable M) "1" && assigns (sm_disable M) "0"
   && forallb (honours M) all_dkinds
+  && forallb (wraps M) all_dkinds
   && refs_ok M.
 
 Lemma in_domain_cases : forall e, in_domain e = true -> In e dom_envs.
@@ -35,12 +37,13 @@ Section Good.
   Lemma good_parts :
     (forall e, in_domain e = true -> is_enabled M e = Ok (spec_enabled e)) /\
     sm_enable M = SetVal "1" /\ sm_disable M = SetVal "0" /\
-    (forall d, honours M d = true) /\ refs_ok M = true.
+    (forall d, honours M d = true) /\ refs_ok M = true /\
+    (forall d, wraps M d = true) /\ sm_var M = "ENABLE_PEDANTIC"%string.
   Proof.
     pose proof G as G'. unfold good in G'.
-    apply andb_true_iff in G' as [G' GR]. apply andb_true_iff in G' as [G' GH].
-    apply andb_true_iff in G' as [G' GD]. apply andb_true_iff in G' as [GI GE].
-    split; [|split; [|split; [|split]]].
+    apply andb_true_iff in G' as [G' GR]. apply andb_true_iff in G' as [G' GW]. apply andb_true_iff in G' as [G' GH].
+    apply andb_true_iff in G' as [G' GD]. apply andb_true_iff in G' as [G' GE]. apply andb_true_iff in G' as [GV GI].
+    split; [|split; [|split; [|split; [|split; [|split]]]]].
     - intros e He. apply in_domain_cases in He.
       rewrite forallb_forall in GI. specialize (GI e He). unfold outcome_is in GI.
       destruct (is_enabled M e) as [x|]; [|discriminate]. apply Bool.eqb_prop in GI. now subst.
@@ -48,12 +51,14 @@ Section Good.
     - unfold assigns in GD. destruct (sm_disable M); [|discriminate]. f_equal. now apply String.eqb_eq.
     - intro d. rewrite forallb_forall in GH. apply GH. destruct d; simpl; auto 10.
     - exact GR.
+    - intro d. rewrite forallb_forall in GW. apply GW. destruct d; simpl; auto 10.
+    - now apply String.eqb_eq.
   Qed.
 
   (* the cross-reference obligation: no wrapper reads the switch when it is called *)
   Lemma no_call_reads : forall d, call_reads M d = false.
   Proof.
-    intro d. destruct good_parts as (_ & _ & _ & _ & R). unfold refs_ok in R. unfold call_reads.
+    intro d. destruct good_parts as (_ & _ & _ & _ & R & _). unfold refs_ok in R. unfold call_reads.
     apply not_true_is_false. intro H. apply existsb_exists in H as (r & Hin & Hr).
     rewrite forallb_forall in R. specialize (R r Hin).
     apply andb_true_iff in Hr as [Hk Hp]. unfold ref_allowed in R.
@@ -61,7 +66,12 @@ Section Good.
   Qed.
 
   Lemma call_behaviour_env_independent : forall o e1 e2, call_behaviour M o e1 = call_behaviour M o e2.
-  Proof. intros [x|d x] e1 e2; simpl; [reflexivity|]. now rewrite no_call_reads. Qed.
+  Proof. intros [x|d x] e1 e2; simpl; [reflexivity|]. rewrite no_call_reads. now destruct (wraps M d). Qed.
+
+  Lemma wrapped_checked : forall d x e, call_behaviour M (Wrapped d x) e = Checked.
+  Proof.
+    intros d x e. destruct good_parts as (_ & _ & _ & _ & _ & W & _). simpl. now rewrite W, no_call_reads.
+  Qed.
 
   Definition tag (o : dobj) : bool := match o with Identity _ => false | Wrapped _ _ => true end.
   Definition rel (s : state) (sp : sstate) : Prop :=
@@ -75,15 +85,16 @@ Section Good.
   Proof.
     intros s sp o (He & Ho & Hd) Hop.
     destruct good_parts as (IE & EN & DI & HON & _).
-    destruct o; simpl in *.
+    destruct o; cbn [step spec_step fst snd op_in_domain] in *.
     - repeat split; auto.
     - repeat split; auto.
     - rewrite EN. simpl. repeat split; auto.
     - rewrite DI. simpl. repeat split; auto.
     - rewrite HON, (IE _ Hd), <- He. unfold rel.
       destruct (spec_enabled (env s)); simpl; rewrite map_app, Ho; auto.
-    - rewrite <- Ho, nth_error_map'. destruct (nth_error (objs s) i) as [[x|d x]|]; simpl; repeat split; auto.
-      now rewrite no_call_reads.
+    - rewrite <- Ho, nth_error_map'. destruct (nth_error (objs s) i) as [[x|d x]|]; simpl option_map; cbn [tag fst snd];
+        repeat split; auto.
+      now rewrite wrapped_checked.
   Qed.
 
   Lemma run_refines : forall h s sp, rel s sp -> forallb op_in_domain h = true ->
@@ -120,6 +131,30 @@ Section Good.
     intros s i x h1 h2 H. simpl.
     rewrite (run_keeps h1 s i x H), (run_keeps h2 s i x H). simpl. f_equal.
     apply call_behaviour_env_independent.
+  Qed.
+
+  (* headline: what a decorated object does when called is fixed by the switch at decoration, whatever happens in between *)
+  Lemma behaviour_fixed : forall s d x h, in_domain (env s) = true ->
+    snd (step M (fst (run_ops M (fst (step M s (ODecorate d x))) h)) (OCall (List.length (objs s)))) =
+    OCalled (if spec_enabled (env s) then Checked else Plain).
+  Proof.
+    intros s d x h Hd. destruct good_parts as (IE & _ & _ & HON & _).
+    set (o := if spec_enabled (env s) then Wrapped d x else Identity x).
+    assert (E : nth_error (objs (fst (step M s (ODecorate d x)))) (List.length (objs s)) = Some o).
+    { cbn [step]. rewrite HON, (IE _ Hd). unfold o.
+      destruct (spec_enabled (env s)); cbn [fst objs]; rewrite nth_error_app2, Nat.sub_diag by auto; reflexivity. }
+    remember (fst (step M s (ODecorate d x))) as s0 eqn:E0. clear E0.
+    cbn [step]. rewrite (run_keeps h _ _ _ E). cbn [snd]. f_equal. unfold o.
+    destruct (spec_enabled (env s)); [apply wrapped_checked|reflexivity].
+  Qed.
+
+  (* when is_enabled cannot raise, a decoration always adds exactly one object, at the next position *)
+  Lemma decorate_appends : (forall e, exists b, is_enabled M e = Ok b) ->
+    forall s d x, exists o, nth_error (objs (fst (step M s (ODecorate d x)))) (List.length (objs s)) = Some o.
+  Proof.
+    intros T s d x. unfold step. destruct (T (env s)) as [b Hb].
+    destruct (honours M d); [rewrite Hb; destruct b|]; cbn [fst objs]; rewrite nth_error_app2, Nat.sub_diag by auto;
+      cbn [nth_error]; eauto.
   Qed.
 
   Lemma decorate_obs : forall s d x, in_domain (env s) = true ->
